@@ -9,6 +9,7 @@ LEVEL = "exploration"
 TYPES = ["rdp.TPKTHeader", "rdp.X224Crq", "rdp.RDPNegReq", "rdp.RDPCorrInfo", "rdp.RDPToken", "wireguard.MessageInitiation", "wireguard.MessageTransport",
          "openvpn.MessageHeader", "openvpn.MessagePlain", "openvpn.MessageAuth", "openvpn.MessageCrypt", "openvpn.WrappedKey", "openvpn.MessageCrypt2",
          "winbox.MessageAuth"]
+SEAL_TYPES = ["openvpn.MessageAuth", "openvpn.MessageCrypt", "openvpn.WrappedKey", "openvpn.MessageCrypt2"]
 
 
 def run(res, tier):
@@ -55,6 +56,48 @@ def run(res, tier):
             c = t["c"]
             ks = "+".join(sorted(x.split()[0] for x in b["clauses"]))
             res.violation(f"codec:{c['type']}:{ks}:delta{c['delta']}", "; ".join(b["clauses"]) + f" (type {c['type']}, delta {c['delta']}, {len(c['bytes'])} bytes offered)", t)
+        # clause K4: the OpenVPN types whose wire form is made by signing / encrypting a message
+        sf = os.path.join(tmp, "seal_cases.ndjson")
+        ns = 0
+        with open(sf, "w") as f:
+            for t in SEAL_TYPES:
+                cfg = "L4CodecSealGrid_" + t.replace(".", "_") + ".cfg"
+                with open(os.path.join(tmp, cfg), "w") as c:
+                    c.write(f'INIT Init\nNEXT Next\nCONSTANTS Type = "{t}"\nINVARIANT Emit\nCHECK_DEADLOCK FALSE\n')
+                g = run_tlc(tmp, "L4CodecSealGrid.tla", cfg, workers=2, timeout=900)
+                tlc_ok(g, cfg)
+                if not g["vout"]:
+                    raise Inconclusive(f"no sealed cases for {t}")
+                for x in g["vout"]:
+                    f.write(json.dumps(x) + "\n")
+                    ns += 1
+        str_ = os.path.join(tmp, "seal.ndjson")
+        ssum = os.path.join(tmp, "seal.sum.json")
+        run_driver(vdrive, ["codec-seal", "-in", sf, "-out", str_, "-summary", ssum], timeout=1800)
+        ss = json.load(open(ssum))
+        if ss["cases"] != ns:
+            raise Inconclusive(f"codec-seal ran {ss['cases']} of {ns} cases")
+        nsv, sbad, _ = validate_traces(tmp, str_, "seal_traces.ndjson", "L4CodecSealTrace.tla", "L4CodecSealTrace.cfg")
+        cov["sealed"] = dict(cases=ns, by_type=ss["by_type"], validated=nsv,
+                             rule="MessageAuth / MessageCrypt / WrappedKey / MessageCrypt2: boundary values of session id, replay packet id, timestamp, packet id, "
+                                  "client key (ascending / all ones / all zero), meta data absent / 4 / 32 bytes of both types; signed (and encrypted) by the real code with a fixed key, "
+                                  "ToBytes, FromBytes, authenticated (and decrypted) with the same key; enumerated exhaustively by TLC")
+        cov["evaluations"] += ns
+        cov["traces_validated_against_impl"] += nsv
+        straces = {}
+        for line in open(str_):
+            t = json.loads(line)
+            straces[t["id"]] = t
+        seen = set()
+        for b in sbad:
+            t = straces[b["id"]]
+            c = t["c"]
+            why = "; ".join(b["clauses"])
+            key = (c["type"], why)
+            if key in seen:
+                continue
+            seen.add(key)
+            res.violation(f"codec-seal:{c['type']}:K4:meta{len(c['clear']['meta'])}", why + f" (type {c['type']}, meta data {len(c['clear']['meta'])} bytes, {t['o'].get('err', '')})", t)
     res.assumptions += ["the reference layouts (field order, widths, byte order, chunking) are the TLA+ data of L4Codec, transcribed from the layouts documented in the repository and the protocol documents it cites",
                         "agreement of ToBytes with the reference layout is counted in by_type.layout_agrees, not demanded: the property speaks of inverses",
                         "the harness adapters only move field values between the abstract message and the repository's structs"]
